@@ -751,6 +751,13 @@ func (e *Enc) enterLoop(fr *Frame, li *loopInfo, preds []*ssa.BasicBlock, conds 
 		v := e.fresh(phi.Type(), "loopphi:"+phi.Name()+":"+phi.Comment)
 		fr.vals[phi] = v
 		li.headPhis[phi] = v
+		if phi.Comment == "rangeindex" {
+			// the hidden counter of a range-over-slice loop starts at -1 and only ever grows by
+			// one while it is below a length: it is never below -1 (built-in invariant)
+			if t, ok := v.(T); ok && t.Sort == SInt {
+				e.s.Assume(Ge(t, IntLit(-1)))
+			}
+		}
 	}
 	if ann.Havoc && len(ann.Invariants) == 0 {
 		e.note(fmt.Sprintf("loop %d of %s: havoc (no facts about state modified in the loop survive)", li.ordinal, shortFnName(fr.fn)))
